@@ -702,16 +702,20 @@ func (a *analysis) checkRecovery(x *verifkit.Exec) {
 			case isSource(e.Comp) && e.Kind == "teardown":
 				live--
 			}
-			if e.Comp != "ctl" || e.Kind != "call" || (e.Arg != "stop" && e.Arg != "stopwait" && e.Arg != "stopall") {
+			op := e.Arg // control calls of a scripted history are named "<op>#<n>"
+			if k := strings.Index(op, "#"); k >= 0 {
+				op = op[:k]
+			}
+			if e.Comp != "ctl" || e.Kind != "call" || (op != "stop" && op != "stopwait" && op != "stopall") {
 				continue
 			}
 			if live <= 0 || status != "Running" || (firstFailure >= 0 && firstFailure < e.Seq) || lastUserStart > e.Seq {
 				continue
 			}
 			// was it accepted?
-			accepted := e.Arg == "stopall"
+			accepted := op == "stopall"
 			for _, r := range a.evs[i+1:] {
-				if r.Comp == "ctl" && (r.Kind == e.Arg+".ret" || r.Kind == "hist."+e.Arg+".ret") {
+				if r.Comp == "ctl" && (r.Kind == op+".ret" || r.Kind == "hist."+op+".ret") {
 					res := strings.SplitN(r.Arg, "|status=", 2)[0]
 					accepted = res == "nil" || strings.Contains(res, "did not stop gracefully")
 					break
@@ -721,7 +725,7 @@ func (a *analysis) checkRecovery(x *verifkit.Exec) {
 				continue
 			}
 			who, want := "the user stopped the pipeline", "UserStopped"
-			if e.Arg == "stopall" {
+			if op == "stopall" {
 				who, want = "the server shut down gracefully (StopAll)", "SystemStopped"
 			}
 			for _, o := range opens {
